@@ -92,6 +92,13 @@ CHECKS = {
         "Lattice of parameters/queries; dense sampling is the reference for closeness.",
         "DESIGN.md 5 C16",
     ),
+    "C17": (
+        "exploration",
+        "exhaustive enumeration of a finite lattice on the real clamp and link classes: 6 clamp types and 3 link types x frames with non-unit directions and non-zero origins x creation offsets x parameter grids x leader moves; independent closest-point formulas / dense sampling as reference",
+        "Fresh clamps report the creation point or its closest point on the constraint; for every parameter value the position lies on the declared line / plane / circle (same radius and height, parameter = arc length) / curve / surface; followers satisfy the translation / rotation / mirror relation after every leader move; creating and updating a link leaves the leader array bit-identical.",
+        "Lattice only. Positions compared to 1e-5 (scipy minimisation tolerance).",
+        "DESIGN.md 5 C17",
+    ),
     "C02": (
         "model_checking",
         "stateless model checking of the implementation: choice-point explorer over set iteration orders (iterative deviation bounding) x exhaustive insertion orders / corner numberings / chop placements of small lattice assemblies, edge-family reference model",
